@@ -988,3 +988,85 @@ Proof.
   - apply andb_true_iff in H as [H1 H2]. apply sdec_instr_actions; [tauto|exact H1|lia].
   - apply andb_true_iff in H as [H1 H2]. apply sdec_instr_actions; [tauto|exact H1|lia].
 Qed.
+
+(* ---------------------------------------------------------------- buckets *)
+Definition bucket_ok (b : brec) : bool :=
+  match b with BK w p g acts =>
+    (w <? 65536) && (p <? 4294967296) && (g <? 4294967296) && forallb act_ok acts &&
+    (sumN (map glen (map build_a acts)) <? 65000)
+  end.
+
+Theorem sdec_built_bucket b rest : bucket_ok b = true ->
+  sdec_bucket (wire (norm (build_b b)) ++ rest) = Some (canon (norm (build_b b)), rest).
+Proof.
+  destruct b as [w p g acts]. cbn [bucket_ok build_b]. intros H.
+  repeat (apply andb_true_iff in H as [H ?]).
+  match goal with Hx : forallb act_ok acts = true |- _ => rename Hx into Hacts end.
+  assert (Hwf : forallb wf_a acts = true).
+  { rewrite forallb_forall in *. intros x Hx. apply act_ok_wf, Hacts, Hx. }
+  destruct (flat_norm_len acts Hwf) as [Hlen H8].
+  set (ks := map build_a acts) in *. set (L := 16 + sumN (map glen ks)).
+  assert (Hn : norm (T KBucket [VN 16; VN w; VN p; VN g] ks) = T KBucket [VN L; VN w; VN p; VN g] (map norm ks)).
+  { cbn [norm writeback set_nth]. f_equal. f_equal. f_equal. cbn [glen lenrule_of layout fields_len lenround].
+    change (N.of_nat 2) with 2. change (N.of_nat 4) with 4.
+    assert (Hg : sumN (map glen (map norm ks)) = sumN (map glen ks)).
+    { subst ks. clear - Hwf. induction acts as [|a r IH]; [reflexivity|]. cbn [forallb] in Hwf. apply andb_true_iff in Hwf as [Ha Hr].
+      cbn [map sumN fold_right]. unfold sumN in IH. rewrite (IH Hr). f_equal.
+      destruct (build_a_ok a Ha) as [Hc _]. destruct (norm_keeps _ (consistent_shaped _ Hc)) as (_ & _ & Hg). exact Hg. }
+    rewrite Hg. subst L. apply round8_fix. lia. }
+  rewrite Hn. cbn [canon]. set (X := flat_map wire (map norm ks)) in *.
+  assert (Hw : wire (T KBucket [VN L; VN w; VN p; VN g] (map norm ks)) = enc_fields [FU 2; FU 2; FU 4; FU 4; FZ 4] [VN L; VN w; VN p; VN g] ++ X).
+  { cbn [wire layout enc_fields align8]. rewrite <- !app_assoc. reflexivity. }
+  rewrite Hw. set (F := enc_fields [FU 2; FU 2; FU 4; FU 4; FZ 4] [VN L; VN w; VN p; VN g]).
+  assert (HF : length F = 16%nat) by reflexivity.
+  unfold sdec_bucket.
+  assert (Hn1 : num 2 ((F ++ X) ++ rest) = Some (L, be_bytes 2 w ++ be_bytes 4 p ++ be_bytes 4 g ++ zeros 4 ++ X ++ rest)).
+  { subst F. cbn [enc_fields]. rewrite <- !app_assoc. apply num_be. change (256 ^ N.of_nat 2) with 65536. lia. }
+  rewrite Hn1. cbn [obind]. replace ((16 <=? L) && (L mod 8 =? 0)) with true by lia. cbn [guard obind].
+  pose proof (take_app (F ++ X) rest) as Ht. unfold Walk.blen in Ht. rewrite app_length, HF in Ht.
+  replace (N.of_nat (16 + length X)) with L in Ht by lia. rewrite Ht. cbn [obind].
+  subst F. rewrite sfields_enc; [|reflexivity|].
+  2:{ cbn [vals_ok]. change (256 ^ N.of_nat 2) with 65536. change (256 ^ N.of_nat 4) with 4294967296.
+      replace (L <? 65536) with true by lia. cbn [andb]. repeat (apply andb_true_iff; split); try assumption; reflexivity. }
+  cbn [obind]. unfold X, ks. rewrite sdec_built_actions by (try exact Hacts; lia). cbn [obind]. reflexivity.
+Qed.
+
+Lemma sdec_buckets_built bs : forallb bucket_ok bs = true ->
+  forall fuel, (length (flat_map wire (map norm (map build_b bs))) < fuel)%nat ->
+  sdec_buckets fuel (flat_map wire (map norm (map build_b bs))) = Some (map canon (map norm (map build_b bs))).
+Proof.
+  induction bs as [|b r IH]; intros H fuel Hf; cbn [map flat_map forallb] in *.
+  - destruct fuel; [lia|reflexivity].
+  - apply andb_true_iff in H as [Hb Hr]. destruct fuel as [|fuel]; [lia|]. cbn [sdec_buckets].
+    set (w := wire (norm (build_b b))) in *. set (X := flat_map wire (map norm (map build_b r))) in *.
+    pose proof (fun rest => sdec_built_bucket b rest Hb) as Hdec. fold w in Hdec.
+    assert (Hne : w <> []).
+    { intros E. specialize (Hdec []). rewrite E in Hdec. discriminate Hdec. }
+    rewrite app_length in Hf.
+    destruct (w ++ X) as [|b0 l0] eqn:E.
+    { apply app_eq_nil in E as [E _]. contradiction. }
+    rewrite <- E. rewrite Hdec. cbn [obind]. rewrite app_length.
+    assert (0 < length w)%nat by (destruct w; [contradiction|cbn; lia]).
+    replace (_ <? _)%nat with true by (symmetry; apply Nat.ltb_lt; lia).
+    cbn [guard obind]. rewrite IH; [reflexivity|exact Hr|lia].
+Qed.
+
+Lemma sdec_instrs_built is : forallb instr_ok is = true ->
+  forall fuel, (length (flat_map wire (map norm (map build_i is))) < fuel)%nat ->
+  sdec_instrs fuel (flat_map wire (map norm (map build_i is))) = Some (map canon (map norm (map build_i is))).
+Proof.
+  induction is as [|i r IH]; intros H fuel Hf; cbn [map flat_map forallb] in *.
+  - destruct fuel; [lia|reflexivity].
+  - apply andb_true_iff in H as [Hb Hr]. destruct fuel as [|fuel]; [lia|]. cbn [sdec_instrs].
+    set (w := wire (norm (build_i i))) in *. set (X := flat_map wire (map norm (map build_i r))) in *.
+    pose proof (fun rest => sdec_built_instr i rest Hb) as Hdec. fold w in Hdec.
+    assert (Hne : w <> []).
+    { intros E. specialize (Hdec []). rewrite E in Hdec. discriminate Hdec. }
+    rewrite app_length in Hf.
+    destruct (w ++ X) as [|b0 l0] eqn:E.
+    { apply app_eq_nil in E as [E _]. contradiction. }
+    rewrite <- E. rewrite Hdec. cbn [obind]. rewrite app_length.
+    assert (0 < length w)%nat by (destruct w; [contradiction|cbn; lia]).
+    replace (_ <? _)%nat with true by (symmetry; apply Nat.ltb_lt; lia).
+    cbn [guard obind]. rewrite IH; [reflexivity|exact Hr|lia].
+Qed.
